@@ -439,12 +439,6 @@ def union_spec(alts, one_of):
     real = [a for a in alts if "const" in a or "s" in a]
     if len(real) < 2:
         raise ValueError("a union with fewer than two non-null alternatives is an Option / alias, not an enum")
-    if not one_of:
-        # anyOf with a free-form string next to string constants is the relaxed enum of C15
-        plain = any("s" in a and a["s"]["k"] == "str" for a in alts)
-        consts = any("const" in a or ("s" in a and a["s"]["k"] == "enum") for a in alts)
-        if plain and consts:
-            raise ValueError("relaxed enum (C15)")
     cs = [a["const"] for a in alts if "const" in a]
     if len(set(cs)) != len(cs):
         raise ValueError("one constant twice")
@@ -485,6 +479,7 @@ def union_alt_pool(r):
         {"s": o([P("a", {"k": "str"}), P("b", {"k": "int", "f": None}, False)], "closed")},
         {"s": o([P("b", {"k": "int", "f": "int32"})], "absent", True)}, {"s": o([P("c", {"k": "nullable", "s": {"k": "bool"}}, False)], "closed", True)},
         {"s": o([P("type", {"k": "enum", "vals": ["x", "y"]}), P("v", {"k": "num", "f32": False}, False)], "absent", True)},
+        {"s": {"k": "single", "v": "only"}},
         {"null": True},
     ] + [{"const": c} for c in UNION_CONSTS] + [{"const": "auto", "doc": "the default"}]
 
@@ -822,5 +817,5 @@ def run(ctx):
              "untagged unions as the root type (codec.union): unions of 2-3 constants, ordered pairs over a pool of 27 alternatives (sampled in the quick tier), random lists of 2-4, each as oneOf and anyOf, with instances and mutations of every alternative, every constant, null and a fixed cross set; "
              "A (thorough): 600 of the object cases and 250 of the union cases compiled and executed; distinct by input hash, non-trivial = any case",
         assumptions=["the root schema is an object named T; non-object schemas are tested as its required member `v`",
-                     "default --enum-mode merge, no discriminators (C14); unions only as the root type, without nullable alternatives, non-string enums, or (anyOf) a free-form string next to constants / string enums (the relaxed enum of C15); allOf only as a hierarchy of plain objects (members spread over 1-3 named layers, flat or chained, layer names on both sides of the root in name order), no string formats with serde_with codecs (date, date-time, uuid, byte), no `additionalProperties: true`",
+                     "default --enum-mode merge, no discriminators (C14); unions only as the root type, without nullable alternatives or non-string enums; allOf only as a hierarchy of plain objects (members spread over 1-3 named layers, flat or chained, layer names on both sides of the root in name order), no string formats with serde_with codecs (date, date-time, uuid, byte), no `additionalProperties: true`",
                      "property names are ASCII (any_ascii is the identity) and avoid C09's panicking names"])
